@@ -52,7 +52,9 @@ package core
 //@   ensures old(chainEntry.Certificate != nil && chainEntry.Certificate.SerialNumber != nil && chainEntry.RawCertificate != nil) ==> chainsOK(ret)
 
 //@ func FindCertificateIssuerCandidates
-//@   props C07 C04 C05
+//@   props C07 C04 C05 C02
+//@   ensures[C02,C04,C05] issuer_and_serial_take_precedence_over_the_key_identifier: called(parseKeyIdentifierFromExtension#1) && res(parseKeyIdentifierFromExtension#1, 1) == nil && res(parseKeyIdentifierFromExtension#1, 0).AuthorityCertSerialNumber != nil ==> called(findCertificateBySerialAndIssuer#1) && !called(findCertificateCandidatesFromKeyIdentifier#1)
+//@   ensures[C02,C04,C05] without_an_identifier_extension_the_issuer_name_decides: called(FindExtension#1) && res(FindExtension#1) == nil ==> called(findCertificateCandidatesByIssuerAndAlgorithm#1) && arg(findCertificateCandidatesByIssuerAndAlgorithm#1, 0) == issuer && arg(findCertificateCandidatesByIssuerAndAlgorithm#1, 1) == algorithmID
 //@   requires chains != nil && issuer != nil
 //@   requires certs_nonnil: chainsOK(chains)
 //@   assigns E.uint8, X.stream, X.spos, fresh:E.*core.CertificateChainEntry
